@@ -214,6 +214,15 @@ def law_operands(run, rng, a, b, v, engine, case) -> None:
                 # 4 = the three products and the sum; the law itself is stated at 1e-12*|v|
                 run.violation(f'{vk} @ {ka} differs from the model by {d:.3g}', witness={'got': got, 'want': want_va},
                               case=case, engine=engine, key='vec-rot-wrong')
+            # the reflected operator invoked directly gives the same answer as the operator expression
+            refl = type(A).__rmatmul__(A, V)
+            if refl is not NotImplemented:
+                run.count('reflected_direct_calls')
+                if type(refl) is not want_type or vdiff((refl.x, refl.y, refl.z), got) > 1e-12 * vmag:
+                    run.violation(f'{ka}.__rmatmul__({vk}) differs from {vk} @ {ka}', witness={'reflected': snap(refl), 'binary': got},
+                                  case=case, engine=engine, key='reflected-differs')
+                if snap(V) != sv or snap(A) != sa:
+                    run.violation(f'{ka}.__rmatmul__({vk}) changed an operand', case=case, engine=engine, key='matmul-mutates-operand')
             # Vec @ Angle == Vec @ Matrix.from_angle(Angle)
             if ka in ('Angle', 'FrozenAngle'):
                 via = V @ Matrix.from_angle(A)
@@ -250,6 +259,20 @@ def law_operands(run, rng, a, b, v, engine, case) -> None:
             if snap(A) != sa or snap(B) != sb:
                 run.violation(f'{ka} @ {kb} changed an operand', witness={'before': [sa, sb], 'after': [snap(A), snap(B)]},
                               case=case, engine=engine, key='matmul-mutates-operand')
+            refl = type(B).__rmatmul__(B, A)
+            if refl is not NotImplemented:
+                run.count('reflected_direct_calls')
+                s1, s2 = snap(refl), snap(C)
+                # values only: for an Angle on the left Python never reaches this branch through `@`, and the class it
+                # would pick for the result (the right operand's) is not something the statement speaks about
+                same = s1[0] == s2[0] and (
+                    maxdiff(s1[2], s2[2]) <= 1e-12 if s1[0] == 'M' else
+                    max(min(abs(x - y), 360 - abs(x - y)) for x, y in zip(s1[2:], s2[2:])) <= 1e-9)
+                if not same:
+                    run.violation(f'{kb}.__rmatmul__({ka}) differs from {ka} @ {kb}', witness={'reflected': s1, 'binary': s2},
+                                  case=case, engine=engine, key='reflected-differs')
+                if snap(A) != sa or snap(B) != sb:
+                    run.violation(f'{kb}.__rmatmul__({ka}) changed an operand', case=case, engine=engine, key='matmul-mutates-operand')
             # associativity: (v @ A) @ B vs v @ (A @ B)
             V = Vec(*v)
             left = (V @ A) @ B
@@ -471,7 +494,7 @@ def main(run, shard=(0, 1)) -> None:
     probe.check_reached(run)
     if shard[0] == 0:
         native_engine(run)
-    run.require('near_twin_evaluations', 'from_angle_checked', 'to_angle_roundtrips', 'to_angle_gimbal_branch', 'operand_combos', 'assoc_checked',
+    run.require('near_twin_evaluations', 'reflected_direct_calls', 'from_angle_checked', 'to_angle_roundtrips', 'to_angle_gimbal_branch', 'operand_combos', 'assoc_checked',
                 'inverse_checked', 'constructed_rotations')
 
 
